@@ -22,6 +22,8 @@ def correspondence(ctx):
     for _ in range(2000 if ctx.tier == 'quick' else 50000):
         n = ctx.rng.randrange(4, 12)
         cases.append(f'rules|um|width|{hexs([ctx.rng.choice(alpha + keys[:40]) for _ in range(n)])}')
+    for s_ in long_strings(ctx, alpha + keys[:30], (60 if ctx.tier == 'quick' else 3000)):
+        cases.append(f'rules|um|width|{hexs(s_)}')
     res = run_cases(cases, ctx.work)
     keyset = set(keys)
 
